@@ -10,6 +10,7 @@
 import datetime
 import importlib
 from collections.abc import Iterator, Sequence, Callable
+from copy import copy
 from functools import cached_property
 from types import ModuleType
 from typing import cast, Any, Optional, Union
@@ -353,7 +354,9 @@ class XPathContext:
         """
         if varnames is None:
             varnames = []
-        iterators = [x(self) for x in selectors]
+        # Each selector works on its own copy of the context: the generators are
+        # consumed interleaved and a suspended one leaves its focus on the context.
+        iterators = [x(copy(self)) for x in selectors]
         dimension = len(iterators)
         prod = [None] * dimension
         max_index = dimension - 1
@@ -375,7 +378,7 @@ class XPathContext:
             else:
                 if not k:
                     return
-                iterators[k] = selectors[k](self)
+                iterators[k] = selectors[k](copy(self))
                 k -= 1
 
     ##
